@@ -253,3 +253,6 @@ def replays(failed):
     yield ("success: nothing on stderr, exit 0", "print(1)\n", exp(0, "1\n"))
     yield ("evaluation error: path as given, position, message; exit 103", "print(1)\nprint(zz)\n", exp(103, "1\n", "replay.sd:2:7: 'zz' is not defined"))
     yield ("syntax error: path as given, position, message; exit 103; nothing ran", "print(1)\nprint(\n", exp(103, "", "replay.sd:3:0: unexpected EOF; expected "))
+    yield ("an unexpected token is reported where it starts, a newline right after it", "x := 1\nprint(x))\n", exp(103, "", "replay.sd:2:9: unexpected ')'"))
+    yield ("an unexpected multi-character token is reported where it starts", "authors := [\"a\" \"bcd\"]\n", exp(103, "", "replay.sd:1:17: unexpected '\"bcd\"'"))
+    yield ("a lexical error is reported at the offending character", "x := 1\ny := x ? 2\n", exp(103, "", "replay.sd:2:8: unexpected '?'"))
